@@ -191,6 +191,7 @@ func modelCfg() idl.Cfg {
 	c.MaxFiles = 3
 	c.MaxDefs = 3
 	c.NoNamespace = true
+	c.SharedNS = true // several files in one Go package (also with the same base name: output file names collide)
 	if vt.Known(prop, "binary-map-key-const-ref") {
 		c.NoBinKeyConstRef = true
 		vt.Excluded("binary-map-key-const-ref")
@@ -210,14 +211,20 @@ func crossFile(p *idl.Program) bool {
 
 func TestCompiles(t *testing.T) {
 	rapid.Check(t, func(rt *rapid.T) {
-		p := idl.Gen(rt, modelCfg())
+		backend := "go"
+		if rapid.IntRange(0, 3).Draw(rt, "fastgo") == 0 {
+			backend = "fastgo"
+		}
+		mc := modelCfg()
+		if backend == "fastgo" && vt.Known(prop, "fastgo-files-sharing-a-package") {
+			mc.SharedNS = false
+			vt.Excluded("fastgo-files-sharing-a-package")
+		}
+		p := idl.Gen(rt, mc)
 		if vt.Known(prop, "unused-import-typedef-const") && retypeCrossFileBaseTypedefConsts(p) > 0 {
 			vt.Excluded("unused-import-typedef-const")
 		}
-		c := genCase{Main: p.Files[0].Path, Files: p.Texts(nil), Backend: "go", Options: genOptions(rt), Recurse: rapid.IntRange(0, 3).Draw(rt, "recurse") > 0}
-		if rapid.IntRange(0, 3).Draw(rt, "fastgo") == 0 {
-			c.Backend = "fastgo"
-		}
+		c := genCase{Main: p.Files[0].Path, Files: p.Texts(nil), Backend: backend, Options: genOptions(rt), Recurse: rapid.IntRange(0, 3).Draw(rt, "recurse") > 0}
 		if rapid.Bool().Draw(rt, "prefix") {
 			c.Prefix = "vmod/gen"
 		}
